@@ -22,7 +22,7 @@ RULE = ('Each case = a generated dense dataset (random templates / whitening / a
         'templates_/clusters_channels; templates_probes; waveform durations (ms); get_depths. non-trivial = '
         'distinct datasets with >= 1 spikeless id or curated clusters.')
 EXHAUSTIVE = {'quick': False, 'thorough': False}
-FLOORS = {'quick': {'evaluations': 480, 'distinct_nontrivial': 250},
+FLOORS = {'quick': {'evaluations': 1400, 'distinct_nontrivial': 800},
           'thorough': {'evaluations': 15000, 'distinct_nontrivial': 8000}}
 ASSUMPTIONS = ['rtol 1e-4 (float32 storage), NaN positions exact',
                'with use="clusters" the cluster waveforms held by the model (decided by C08) are the input of the formulas']
@@ -30,7 +30,7 @@ NSHARDS = 16
 
 
 def plan(tier, seed):
-    n = 500 if tier == 'quick' else 20000
+    n = 1500 if tier == 'quick' else 20000
     return [{'shard': i, 'n': NSHARDS, 'seed': seed, 'cases': n // NSHARDS + 1} for i in range(NSHARDS)]
 
 
